@@ -8,12 +8,20 @@ sys.path.insert(0, os.path.join(V, "rules"))
 os.environ["VERIF_NO_INLINE"] = "1"
 import facts
 paths = set()
+direct = set()
 for cfg in ("A", "B", "C"):
     F = facts.load(cfg)
     for name, c in F.crates.items():
         for f in c.j["fns"]:
             if f.get("kind") in ("Fn", "AssocFn"):
                 paths.add(f["path"])
-json.dump({"_doc": "function paths of the confirmed tree (see rules/inline.py)", "functions": sorted(paths)},
+            for bb in (f.get("body") or {}).get("blocks", []):
+                t = bb["term"]
+                fn = ((t.get("func") or {}).get("k") or {}).get("fn") or {}
+                r = (fn.get("resolved") or {}).get("path", "")
+                if t.get("k") == "call" and fn.get("path", "").startswith("std::ops::Fn") and "{closure" in r:
+                    direct.add(r)
+json.dump({"_doc": "function paths of the confirmed tree (see rules/inline.py)", "functions": sorted(paths),
+           "direct_closures": sorted(direct)},
           open(os.path.join(V, "spec", "fn_baseline.json"), "w"), indent=0)
 print(len(paths), "functions")
